@@ -7,6 +7,7 @@
    record satisfies them: an edit of the code which changes a fact the property depends on breaks the theorem(s)
    depending on it. Tied to the behaviour of the code by harness/cmd/c18 (chunk scripts through the hook, real children). *)
 From Coq Require Import List ZArith Bool.
+From Coq Require String.
 Import ListNotations.
 From GU Require Import C18.Model C18.Proofs C18.Gen.
 Local Open Scope Z_scope.
@@ -108,6 +109,18 @@ Print Assumptions output_returns_all.
 (* Stop flushes the adapters after Wait as well (Start / Stop are outside the property) *)
 Example gen_stop_flushes : stop_flush G = true.
 Proof. vm_compute. reflexivity. Qed.
+
+(* the public entry points taking the loggers / messages are exactly those harness/cmd/c18 drives one by one (the
+   harness compares the generated list with its own table as well and fails closed) *)
+Module EntryPoints.
+Import String.
+Example gen_entry_points_driven :
+  gen_entry_points =
+  ["Execute"; "ExecuteAs"; "ExecuteAsWithEnvironment"; "ExecuteWithEnvironment"; "ExecuteWithSudo"; "New";
+   "NewWithEnvironment"; "Output"; "OutputAs"; "OutputAsWithEnvironment"; "OutputWithEnvironment"; "Subprocess.Setup";
+   "Subprocess.SetupAs"; "Subprocess.SetupAsWithEnvironment"; "Subprocess.SetupWithEnvironment"]%string.
+Proof. vm_compute. reflexivity. Qed.
+End EntryPoints.
 
 (* on linux the command leads its own process group and its Cancel hook kills that group (C05's concern; recorded) *)
 Example gen_group_facts : own_group G = true /\ cancel_hook G = true.
